@@ -516,7 +516,14 @@ def run(chk, replay=None):
         key = "field:%s:%s" % (fid, ty)
         chk.add("traces_validated_against_impl")
         rep = dict(row=row, observed=res)
-        line = short_src(b, v) if len(res["src"]) < 3000 else "%s = %d" % (fid, v)
+        if row["kind"] == "size":
+            line = "%s with %d argument bytes" % ("ins_3(0, 0, <string>)" if fid.endswith(".str") else "ins_N(@blob=...)", v if fid.endswith(".str") else v - row["base"])
+        elif row["kind"] == "count":
+            line = "%d items" % v
+        elif row["kind"] == "cstr":
+            line = "a string of %d bytes" % v
+        else:
+            line = short_src(b, v)
         where = "th%s %s `%s`" % (b.game, b.cmd, line)
         if res["rc"] not in (0, 1) or "panicked at" in res["stderr"]:
             chk.report(key + ":panic", "%s: compile crashes (exit %d): %s" % (where, res["rc"], first_line(res["stderr"])), rep)
